@@ -182,6 +182,14 @@ def run(tier, seed, model_ok, spec_ok, replay=None):
             if bx != by:
                 flags = range_flag(*terms) if terms else []
                 viol.append(dict(d, what_failed="equal objects behave differently", flags=flags, beh_x=repr(bx)[:200], beh_y=repr(by)[:200]))
+        # equality is a relation on definitions: it must not depend on whether an object has been used
+        try:
+            beh(x, docs)
+        except Exception:
+            pass
+        eq3 = E.run_outcome(lambda: bool(x == y))
+        if eq3 != eq1:
+            viol.append(dict(d, what_failed=f"equality changed after x was used: {eq1} then {eq3}"))
         if model:
             try:
                 cases.append(Case(dict(d, impl=repr(eq1), coq=model[:5000]), model, None, E.enc_res(eq1), eq1, eq1 == ("ok", True),
@@ -249,8 +257,17 @@ def run(tier, seed, model_ok, spec_ok, replay=None):
                     return [E.run_outcome(lambda d=d: (obs_rule_test(t_ := r.test(copy_value(d))), t_.data.get_original())) for d in ds]
                 check_pair("rule", what, x_, y_, rt.descr(), ry.descr(), model, beh_rule, [doc], terms=(rt.cond, ry.cond))
                 s1, s2 = v.Schema([x_]), v.Schema([y_])
-                if (x_ == y_) != (s1 == s2):
+                e0 = (s1 == s2)
+                if (x_ == y_) != e0:
                     viol.append({"kind": "schema", "what_failed": "schema equality differs from rule equality", "x": rt.descr()[:300]})
+                E.run_outcome(lambda: s1.validate(copy_value(doc)))
+                if (s1 == s2) != e0 or not (s1 == s1):
+                    viol.append({"kind": "schema", "what_failed": "schema equality changed after one of the schemas validated a document",
+                                 "x": rt.descr()[:300], "doc": jval(doc)})
+                E.run_outcome(lambda: s2.validate(copy_value(doc)))
+                if (s1 == s2) != e0:
+                    viol.append({"kind": "schema", "what_failed": "schema equality changed after both schemas validated a document",
+                                 "x": rt.descr()[:300], "doc": jval(doc)})
             except Exception:
                 pass
     k_bad, o_bad, nk, no, err = run_passes("c14", IMPORTS, cases, model_ok, spec_ok)
